@@ -221,10 +221,11 @@ func vfStepLookup(which int, flag uint16) font.GPOSLookup {
 }
 
 type vfStepGlyph struct {
-	gid     GID
-	props   uint16
-	unicode unicodeProp
-	cluster int
+	gid       GID
+	props     uint16
+	unicode   unicodeProp
+	cluster   int
+	skippable bool // a mark (skipped under IgnoreMarks) or a default ignorable (ZWJ / ZWNJ)
 }
 
 func vfStepFont() *Font {
@@ -276,11 +277,11 @@ func vfStepGlyphs(n int) []vfStepGlyph {
 		case 0:
 			g.props, g.unicode = tables.GPBaseGlyph, letter
 		case 1:
-			g.props, g.unicode = tables.GPMark, markProps
+			g.props, g.unicode, g.skippable = tables.GPMark, markProps, true
 		case 2:
-			g.props, g.unicode = tables.GPBaseGlyph, zwj
+			g.props, g.unicode, g.skippable = tables.GPBaseGlyph, zwj, true
 		case 3:
-			g.props, g.unicode = tables.GPBaseGlyph, zwnj
+			g.props, g.unicode, g.skippable = tables.GPBaseGlyph, zwnj, true
 		}
 		if i > 0 && vfBool("newCluster") {
 			cluster++
@@ -697,5 +698,64 @@ func VfH_C18_string_gsub() {
 		}
 	}
 	vfCover("substituted", changed || len(whole.Info) != n)
+	vfReach("end")
+}
+
+// ---- C18: the cut law for the legacy 'kern' machine (ot_kern.go) with an ARBITRARY kerning table ----
+
+// vfKernTable: kerning value of a glyph pair = an uninterpreted function of the pair (0 or -50)
+type vfKernTable struct{}
+
+func (vfKernTable) KernPair(left, right GID) int16 {
+	if vfUF("kernPair", uint64(left), uint64(right))&1 == 1 {
+		return -50
+	}
+	return 0
+}
+
+func vfKernRun(hb *Font, glyphs []vfStepGlyph, dir Direction, crossStream bool) *Buffer {
+	buf := vfStringBuffer(glyphs, dir)
+	kern(vfKernTable{}, crossStream, hb, buf, vfLookupMask, false)
+	return buf
+}
+
+func VfH_C18_string_kern() {
+	maxN := 3
+	if vfThorough() {
+		maxN = 4
+	}
+	n := 2 + vfChoice("n", maxN-1)
+	k := 1 + vfChoice("cut", n-1)
+	crossStream := vfChoice("crossStream", 2) == 1
+	dir := LeftToRight
+	if vfBool("vertical") {
+		dir = TopToBottom
+	}
+	glyphs := vfStepGlyphs(n)
+	vfAssume(glyphs[k-1].cluster != glyphs[k].cluster)
+	hb := vfStepFont()
+	whole := vfKernRun(hb, glyphs, dir, crossStream)
+	later := k
+	if glyphs[k-1].cluster > glyphs[k].cluster {
+		later = k - 1
+	}
+	safe := !vfClusterFlagged(whole.Info, later)
+	vfCover("safe-boundary", safe)
+	vfCover("unsafe-boundary", !safe)
+	if !safe {
+		vfReach("end")
+		return
+	}
+	left := vfKernRun(hb, glyphs[:k], dir, crossStream)
+	right := vfKernRun(hb, glyphs[k:], dir, crossStream)
+	for i := 0; i < k; i++ {
+		vfAssert(vfSamePos(whole.Pos[i], left.Pos[i]), "kerning the piece before a safe boundary positions a glyph differently than on the whole text")
+	}
+	// known finding (inherited from the reference implementation): after a pair was looked at, the machine
+	// jumps to its second glyph, so a skipped glyph (mark, ZWJ, ZWNJ) is never tried as FIRST glyph of a pair - unless it starts the buffer
+	vfKnown("C18-kern-pair-starting-with-skipped-mark", glyphs[k].skippable)
+	for i := k; i < n; i++ {
+		vfAssert(vfSamePos(whole.Pos[i], right.Pos[i-k]), "kerning the piece after a safe boundary positions a glyph differently than on the whole text")
+	}
 	vfReach("end")
 }
